@@ -859,6 +859,16 @@ func c08PersistPromises(p *Prog, r *c08Roles) (out []c08Promise, lost []string) 
 	} else {
 		eval(f, "success-implies-index-saved", nil)
 	}
+	// the explicit save (the only persistence there is with AutoSaveIndex off): unconditional
+	if f := p.Fn(c08Pkg, "Store.SaveIndex"); f == nil {
+		lost = append(lost, "~/content/oci.Store.SaveIndex")
+	} else {
+		ct := newCut()
+		c08SaveSuccessCut(f, r, ct)
+		pr := c08Promise{Fn: f, What: "explicit-save-success-implies-index-saved"}
+		pr.Bad = c08NilReturnFrom(f.Blocks[0], 0, ct)
+		out = append(out, pr)
+	}
 	if f := p.Fn(c08Pkg, "Store.Tag"); f == nil {
 		lost = append(lost, "~/content/oci.Store.Tag")
 	} else if !helpers[f] {
